@@ -55,6 +55,7 @@ class _FirstCause:
         self.waiters = []
         self.disc_at = None
         self.disc_waiters = []
+        self.cause_time = None
 
     def note(self, cls) -> None:
         if not self.known and self.s.conn.connection_state is not CLOSED:
@@ -104,6 +105,7 @@ class _FirstCause:
             self.known = True
             self.cls = TimeoutAPIError
             self.waiters = list(self.disc_waiters)
+            self.cause_time = self.disc_at + 5.0
             return
         if self.s.conn.connection_state is CLOSED or not self._finish_waiting():
             self.disc_at = None
@@ -159,6 +161,8 @@ def _run(events: list) -> bool:
             if not isinstance(exc, APIConnectionError):
                 return track.fail(f"{kind} raised {type(exc).__name__}: {exc} -- not from the connection-error hierarchy; trace={s.trace}")
             if fc.known and fc.cls is not None and any(t is x for x in fc.waiters) and id(t) not in s.cancelled_by_harness:
+                if fc.cause_time is not None and info["t_end"] < fc.cause_time:
+                    continue  # the call had ended (for its own reason) before the cause struck
                 if not isinstance(exc, fc.cls):
                     return track.fail(f"{kind} observed {type(exc).__name__} but the first fatal cause was {fc.cls.__name__}; trace={s.trace}")
         if s.w.loop.exc:
